@@ -41,6 +41,7 @@ structure St where
   /-- the implementation's previous report (tree / observer mode) -/
   prev : Option T := none
   prevW : Option TW := none
+  prevD : Option D := none
 
 def showT (t : T) : String := showGraph t.g ++ " V " ++ showBool t.valid
 def showD (d : D) : String := showGraph d.g ++ " V " ++ showBool d.valid ++ " R " ++ showBool d.rooted
@@ -179,10 +180,12 @@ def stepT (st : St) (op : List String) (impl : Option (List String)) : St × Str
   let okS (_ : Unit) := "ok"
   let t := st.t
   let g := t.g
-  let fuel := g.nodes.length + 2
   let none2 : List String → T → Option String := fun _ _ => none
   let mutr {α : Type} (r : GOut α × T) (f : α → String) := finishT st (gres f r.1) r.2 (judgeT impl false none2)
   let showL (l : List Nat) := "l " ++ showNats l
+  -- a query that needs a rooted tree raises on an unrooted one (theorems `*_refuses_unrooted`)
+  let refuses (spec : List String → T → Option String) : List String → T → Option String := fun res ti =>
+    if !ti.g.directed && res != ["exc:bpp"] && res != ["notvalid"] then some "refuses_unrooted" else spec res ti
   match op with
   | ["t.createNode"] => mutr t.createNode toString
   | ["t.link", a, b] => mutr (t.link (nat a) (nat b)) toString
@@ -248,21 +251,20 @@ def stepT (st : St) (op : List String) (impl : Option (List String)) : St × Str
     finishT st res t (judgeT impl false spec)
   | ["t.subN", n] =>
     let (r, t') := t.getSubtree false (nat n)
-    finishT st (showR showL r) t' (judgeT impl false (listSpec [nat n] (fun rf l => rf.isSubtree (nat n) l) "tree_spec"))
+    finishT st (showR showL r) t' (judgeT impl false (refuses (listSpec [nat n] (fun rf l => rf.isSubtree (nat n) l) "tree_spec")))
   | ["t.subE", n] =>
     let (r, t') := t.getSubtree true (nat n)
-    finishT st (showR showL r) t' (judgeT impl false (listSpec [nat n] (fun rf l => rf.isSubtreeEdges (nat n) l) "tree_spec"))
+    finishT st (showR showL r) t' (judgeT impl false (refuses (listSpec [nat n] (fun rf l => rf.isSubtreeEdges (nat n) l) "tree_spec")))
   | ["t.leavesUnder", n] =>
     let (v, t') := t.isValid
     match v with
     | .ok true =>
-      if !t'.g.directed then finishT st "unrooted" t' (judgeT impl false none2) else
-      finishT st (showR showL (T.leavesUnder t'.g fuel (nat n) [])) t'
-        (judgeT impl false (listSpec [nat n] (fun rf l => rf.isLeavesUnder (nat n) l) "tree_spec"))
+      finishT st (showR showL (T.leavesUnderQ t'.g (nat n))) t'
+        (judgeT impl false (refuses (listSpec [nat n] (fun rf l => rf.isLeavesUnder (nat n) l) "tree_spec")))
     | .ok false => finishT st "notvalid" t' (judgeT impl false none2)
     | r => finishT st (showR showBool r) t' (judgeT impl false none2)
   | ["t.path", a, b, inc] =>
-    if g.hasNode (nat a) && g.hasNode (nat b) && (climbCycles g (nat a) || climbCycles g (nat b)) then
+    if g.directed && g.hasNode (nat a) && g.hasNode (nat b) && (climbCycles g (nat a) || climbCycles g (nat b)) then
       finishT st "skip-cycle" t (judgeT impl false none2)
     else
       let r := T.nodePath g (nat a) (nat b) (nat inc != 0)
@@ -271,9 +273,9 @@ def stepT (st : St) (op : List String) (impl : Option (List String)) : St × Str
         if nat inc != 0 then rf.isPath (nat a) (nat b) l
         else rf.nodes.any (fun m => rf.isMrca [nat a, nat b] m && !l.contains m &&
           (List.range (l.length + 1)).any (fun i => rf.isPath (nat a) (nat b) (l.take i ++ [m] ++ l.drop i)))) "tree_spec"
-      finishT st (showR showL r) t (judgeT impl false spec)
+      finishT st (showR showL r) t (judgeT impl false (refuses spec))
   | ["t.epath", a, b] =>
-    if g.hasNode (nat a) && g.hasNode (nat b) && (climbCycles g (nat a) || climbCycles g (nat b)) then
+    if g.directed && g.hasNode (nat a) && g.hasNode (nat b) && (climbCycles g (nat a) || climbCycles g (nat b)) then
       finishT st "skip-cycle" t (judgeT impl false none2)
     else
       let r := T.edgePath g (nat a) (nat b)
@@ -282,7 +284,7 @@ def stepT (st : St) (op : List String) (impl : Option (List String)) : St × Str
         rf.nodes.any (fun m => rf.isMrca [nat a, nat b] m &&
           (let p := (rf.anc (nat a)).takeWhile (· != m) ++ [m] ++ ((rf.anc (nat b)).takeWhile (· != m)).reverse
            rf.isPath (nat a) (nat b) p && rf.isEdgePath p l))) "tree_spec"
-      finishT st (showR showL r) t (judgeT impl false spec)
+      finishT st (showR showL r) t (judgeT impl false (refuses spec))
   | "t.mrca" :: ns =>
     let l := ns.map nat
     if g.directed && l.length > 1 && l.any (climbCycles g) then
@@ -298,7 +300,7 @@ def stepT (st : St) (op : List String) (impl : Option (List String)) : St × Str
             | _ => some "mrca_spec"
           else none
         | none => none
-      finishT st (showR toString r) t (judgeT impl false spec)
+      finishT st (showR toString r) t (judgeT impl false (refuses spec))
   | _ => (st, "bad-op", "-")
 
 /-! ### DAG mode -/
@@ -331,7 +333,8 @@ def judgeD (impl : Option (List String)) (isValidQuery : Bool) (extra : List Str
     | none => ("FAIL:parse", none)
 
 def finishD (st : St) (res : String) (d' : D) (jv : String × Option D) : St × String × String :=
-  ({ st with d := d' }, res ++ " ; " ++ showD d', jv.1)
+  let prev := match jv.2 with | some di => some di | none => st.prevD
+  ({ st with d := d', prevD := prev }, res ++ " ; " ++ showD d', jv.1)
 
 def stepD (st : St) (op : List String) (impl : Option (List String)) : St × String × String :=
   let nat (s : String) : Nat := s.toNat?.getD 0
@@ -356,6 +359,23 @@ def stepD (st : St) (op : List String) (impl : Option (List String)) : St × Str
   | ["d.removeFather", n, f] => mutr (d.removeFather (nat n) (nat f)) okS
   | ["d.removeSons", n] => mutr (d.removeSons (nat n)) showL
   | ["d.removeFathers", n] => mutr (d.removeFathers (nat n)) showL
+  | ["d.rootAt", n] =>
+    -- whatever happens (also when it raises half way) the nodes and the undirected edge set with its ids stay;
+    -- a call that succeeds leaves the node as the root (theorem `dag_rootAt_shape`)
+    let undirectedEdges (g : G) := g.edges.map (fun p => (p.1, min p.2.1 p.2.2, max p.2.1 p.2.2))
+    let prev := st.prevD
+    let spec : List String → D → Option String := fun res di =>
+      match prev with
+      | some p =>
+        if undirectedEdges di.g != undirectedEdges p.g || AL.keys di.g.nodes != AL.keys p.g.nodes
+           || (res == ["ok"] && di.g.root != nat n) || (res != ["ok"] && !p.g.hasNode (nat n) && di.g != p.g)
+        then some "dag_rootAt" else none
+      | none => none
+    match d.rootAt (nat n) with
+    | .ok r => finishD st (gres okS r.1) r.2 (judgeD impl false spec)
+    | .fuel => finishD st "diverges" d (judgeD impl false none2)
+    | .exc => finishD st "exc:bpp" d (judgeD impl false none2)
+    | .ub => finishD st "ub" d (judgeD impl false none2)
   | ["d.valid"] =>
     let (r, d') := d.isValid
     finishD st (showR showBool r) d' (judgeD impl true none2)
@@ -374,7 +394,7 @@ def stepD (st : St) (op : List String) (impl : Option (List String)) : St × Str
   | ["d.leavesUnder", n] =>
     let (v, d') := d.isValid
     match v with
-    | .ok true => finishD st (showR showL (D.leavesUnder d'.g (d'.g.nodes.length + 2) (nat n) [])) d' (judgeD impl false none2)
+    | .ok true => finishD st (showR showL (d'.leavesUnderQ (nat n))) d' (judgeD impl false none2)
     | .ok false => finishD st "notvalid" d' (judgeD impl false none2)
     | r => finishD st (showR showBool r) d' (judgeD impl false none2)
   | ["d.qn", n] =>
@@ -535,7 +555,7 @@ def step (st : St) (op : List String) (impl : Option (List String)) : St × Stri
 
 def init (tk : List String) : St :=
   let kind := tk[1]?.getD "dir"
-  { t := T.empty (kind != "undir"), d := D.empty, tw := TW.init (kind != "obsundir"), prev := none, prevW := none }
+  { t := T.empty (kind != "undir"), d := D.empty, tw := TW.init (kind != "obsundir"), prev := none, prevW := none, prevD := none }
 
 def machine : Machine St := { init := init, step := step }
 
